@@ -1,6 +1,6 @@
 (* C16 — tars2go: valid IDL yields compiling, conformant code; the tool always terminates. Statements only. *)
 From Coq Require Import String.
-From Coq Require Import List NArith ZArith.
+From Coq Require Import List NArith ZArith Sorted.
 From TarsV Require Import Base.Hex Idl.Lexer Idl.LexerProofs Idl.Parser Idl.ParserProofs Idl.Corr.
 From TarsV Require Import Idl.Print Idl.Render.
 From TarsV Require Idl.Schema Idl.SchemaProofs Idl.PrintProofs Idl.RenderProofs Idl.AnalyzeProofs Idl.Accepts Idl.TablesProofs Gen.C16Tables Gen.C16Translated Xlate.GoSem Codec.GenCodec Codec.Corr.
@@ -90,6 +90,26 @@ Theorem C16_accepts_rendered_instance :
   forallb wf_gap_item [GLine (bs "file")] = true /\ wf_pieces Accepts.ex_pieces /\
   AnalyzeProofs.module_names_ok (module_of (bs "m") Accepts.ex_decls) = true.
 Proof. exact Accepts.accepts_rendered_instance. Qed.
+
+(* member ordering (checkTag + sortTag) and name resolution (checkDepTName), for every input: the members of every
+   struct of an accepted program are strictly ascending by tag, and no user type is left unresolved at any depth -
+   members, vector elements, map keys and VALUES, array elements, parameters, results (the generator picks enum or
+   struct code by the resolved kind) *)
+Theorem C16_members_sorted : forall input m, parse_bytes input = OOk m ->
+  Forall (fun s => Sorted.StronglySorted Z.lt (map sm_tag (st_mb s))) (m_structs m).
+Proof. exact SchemaProofs.parse_bytes_structs_ok. Qed.
+Theorem C16_analysis_resolves : forall input m, parse_bytes input = OOk m -> AnalyzeProofs.module_resolved m = true.
+Proof. exact AnalyzeProofs.parse_bytes_resolved. Qed.
+Theorem C16_analysis_resolves_instance :
+  match parse_bytes (bs "module M { enum Color { RED }; struct In { 0 require int x; }; struct S { 0 require map<string, Color> m; 1 optional vector<In> v; 2 optional Color a[2]; 3 optional map<Color, vector<In>> d; }; interface I { Color f(map<int, Color> a, out vector<Color> b); }; };") with
+  | OOk m => Some (map (fun mb => sm_ty mb) (st_mb (nth 1 (m_structs m) {| st_name := []; st_mb := [] |})))
+  | _ => None
+  end = Some [ VMap (VBase BString false) (VName (bs "Color") CEnum); VVec (VName (bs "In") CStruct);
+               VArr (VName (bs "Color") CEnum) 2; VMap (VName (bs "Color") CEnum) (VVec (VName (bs "In") CStruct)) ].
+Proof. exact AnalyzeProofs.resolved_instance. Qed.
+Print Assumptions C16_members_sorted.
+Print Assumptions C16_analysis_resolves.
+Print Assumptions C16_analysis_resolves_instance.
 
 (* ---- the model's lexer tables are the tree's (regenerated on every run: Gen/C16Tables.v from the compiled token and
    lexer packages, Gen/C16Translated.v from the Go source of the character classes and type predicates) ---- *)
